@@ -46,6 +46,10 @@ CHECKS = [
   "Every cluster view n=1..5 (thorough 1..7) x every non-empty alive set x every local id is built from real InnerNodeManage actors whose own liveness rule marks starved peers invalid; for thousands of generated service keys exactly one live node owns the key (QueryOwnerRange), every live node routes it (NodeManage::route_addr) to that same node, and liveness follows the 15 s rule. A second phase revives the dead nodes; a timer-free tier sweeps membership change sequences. Configurations are enumerated exhaustively, keys are generated.",
   "Owner = QueryOwnerRange[0] of each node; NamingActor's own copy of the range is not observed (DESIGN F8). Transient windows shorter than one 3 s tick are not decided.",
   "exhaustive configuration enumeration + property-based key generation (proptest) against an exactly-one-owner / routing-agrees oracle"),
+ chk("C19", "E2 scripted full node in child processes", "exploration",
+  "Generated histories of next-id draws (single and long runs crossing the 100-id cache ranges), direct ranges and config publishes (history ids) on a real single-node Raft node, with awaited/concurrent compactions, clean restarts and restarts whose last-applied header was rewound (replayed log suffix). A monitor over every id ever issued: per sequence no id twice, next ids strictly increasing, range starts strictly increasing; config history ids pairwise distinct and newest-first per key. The stale-header restart shape is a recorded known finding and is excluded by construction while it is open.",
+  "Single-node tier only (several nodes drawing concurrently / leader changes are not exercised). Monotonicity is judged per stream (next-id stream, range stream).",
+  "property-based testing (proptest): history invariant monitor over all issued ids in real node processes"),
 ]
 
 ENGINES = [
@@ -53,7 +57,7 @@ ENGINES = [
   "kind_free_text": "in-process proptest model-based / round-trip checks linked against /repo as a library (fresh actix System per phase for the file-store actor chain)"},
  {"name": "E5", "path": "interpose/journal.c + harness/src/c04.rs", "serves_properties": ["C04"],
   "kind_free_text": "LD_PRELOAD journal of file mutations in a recorder child; parent materialises every journal prefix and runs the real recovery code on it"},
- {"name": "E2", "path": "harness/src/node.rs", "serves_properties": ["C01", "C07"],
+ {"name": "E2", "path": "harness/src/node.rs", "serves_properties": ["C01", "C07", "C19"],
   "kind_free_text": "scripted full node (starter::config_factory + build_share_data) in a child process per phase: leader path through the real Raft, follower path through RaftStorage calls, restart = new process"},
 ]
 
